@@ -221,6 +221,9 @@ func (n *Namespace) add(c *serverConn, auth json.RawMessage) (*serverSocket, err
 
 	err = n.runMiddlewares(socket, handshake)
 	if err != nil {
+		// The socket is not admitted. Make sure it doesn't
+		// stay in the rooms a middleware has joined it to.
+		socket.leaveAll()
 		return nil, err
 	}
 
